@@ -9,15 +9,15 @@ QUERIES = [
 for n, tier in ((0, "quick"), (1, "quick"), (2, "quick"), (3, "thorough")):
     QUERIES.append(Query("aggverify_n%d" % n, S, "harness_aggverify", defs=["VERIFYN", "NSIG=%d" % n], unwind=140, timeout=1200, tier=tier,
                          desc="aggverify with %d signatures: s >= n, r_i >= p, invalid key rejected for all aggregate bytes; accept => lhs = sG" % n, bounds="n = %d" % n))
-for nb, nn, tier in ((1, 1, "quick"), (1, 2, "thorough"), (2, 1, "thorough")):
+for nb, nn, tier in ((1, 1, "quick"), (0, 1, "quick"), (1, 0, "quick"), (0, 2, "thorough"), (2, 0, "thorough"), (1, 2, "thorough"), (2, 1, "thorough")):
     QUERIES.append(Query("incagg_%d_%d" % (nb, nn), S, "harness_incagg", defs=["INCAGG", "NB=%d" % nb, "NN=%d" % nn], unwind=200, timeout=1500, tier=tier,
                          desc="inc_aggregate(%d then %d) == aggregate(%d) byte for byte, lengths, r_i order, no write beyond 32(n+1); all signature/message/key bytes" % (nb, nn, nb + nn),
                          bounds="split %d+%d, buffer capacity symbolic" % (nb, nn)))
 LEVEL_TEXT = ("Bounded model checking of the real half-aggregation module at real width: full-range size_t length/overflow logic, structural rejections for all aggregate bytes, and byte-identity of incremental vs one-shot aggregation "
               "with SHA-256 compression and scalar multiplication uninterpreted (so it holds for any hash and any product function).")
-ASSUMPTIONS = ["verification equation (sum z_i (R_i + e_i P_i) == sG) is reduced to the curve layer: results free, group law not encoded", "signature counts: verify 0..2 (thorough 3); incremental splits 1+1 (thorough 1+2, 2+1)",
+ASSUMPTIONS = ["verification equation (sum z_i (R_i + e_i P_i) == sG) is reduced to the curve layer: results free, group law not encoded", "signature counts: verify 0..2 (thorough 3); incremental splits 1+1, 0+1, 1+0 (thorough 0+2, 2+0, 1+2, 2+1)",
                "x-only key objects canonical", "SHA-256 compression / scalar mul uninterpreted"]
 MANIFEST_ENTRY = {
-    "text": "Bounded model checking of the real half-aggregation module: aggverify/inc_aggregate length and overflow logic for ALL size_t values; aggverify rejects s >= n, r_i >= p and invalid keys for all aggregate bytes (n <= 2, thorough 3); incremental aggregation over a split equals one-shot aggregation byte for byte with exactly 32(n+1) bytes and no write beyond, for all inputs (split 1+1; thorough 1+2, 2+1), hash and scalar product uninterpreted.",
+    "text": "Bounded model checking of the real half-aggregation module: aggverify/inc_aggregate length and overflow logic for ALL size_t values; aggverify rejects s >= n, r_i >= p and invalid keys for all aggregate bytes (n <= 2, thorough 3); incremental aggregation over a split equals one-shot aggregation byte for byte with exactly 32(n+1) bytes and no write beyond, for all inputs (splits 1+1, 0+1, 1+0; thorough 0+2, 2+0, 1+2, 2+1), hash and scalar product uninterpreted.",
     "note": "Not covered: the verification equation itself on a concrete group (aggregate=>aggverify completeness, equation exactness), counts above 3; curve layer free, group law not encoded. 64-bit limbs only.",
 }
